@@ -552,7 +552,9 @@ class C19Run(qsrun.QsRun):
         elif r < 0.7:
             pass  # finished without result
         else:
-            a["error"] = rng.choice(["boom", "RuntimeError: render failed in function f, file w.py, line 3"])
+            a["error"] = rng.choice(["boom", "RuntimeError: render failed in function f, file w.py, line 3",
+                                     "mw-render failed\nLast Output:\n  Traceback (most recent call last):\n  ...",
+                                     "\nerror on the second line", "e" * 300, {"code": 3}])
         return ["send", st[1], "qfinish", a]
 
     def g_setinfo(self, sendable, live, deadc):
